@@ -198,6 +198,59 @@ def random_partition(rng, s):
     return out
 
 
+def bulk_inputs(tier):
+    """Inputs whose only special feature is size: counters, buffers and SIMD accumulators that are right for every small
+    input and wrong past 2^8 / 2^10 / 2^16 units (lane counters, length caps, narrowed integer types).
+    -> list of (text, start state)"""
+    out = []
+    # fixed-width lines inside one buffer: >= 256 line feeds on the same byte position modulo 16
+    widths = [(16, 300), (32, 260), (80, 257), (64, 513)] if tier == "quick" else \
+             [(16, 300), (16, 256), (16, 255), (32, 260), (48, 300), (80, 257), (64, 513), (1, 300), (2, 700), (17, 4400),
+              (16, 4200)]
+    for w, n in widths:
+        out.append((("x" * (w - 1) + "\n") * n + "<p>tail", "-"))
+        out.append((("é" * ((w - 1) // 2) + "y" * ((w - 1) % 2) + "\n") * n + "&amp;<a b='" + "q\n" * 300 + "'>", "-"))
+    out.append(("\r" * 300 + "<a>", "-"))
+    out.append(("\r\n" * 300 + "</a>", "-"))
+    for st in ("RawData(Rcdata)", "RawData(Rawtext)", "RawData(ScriptData)", "Plaintext", "CdataSection"):
+        out.append((("x" * 15 + "\n") * 300 + "</s>z", st))
+    # '&' followed by a long run that is not a reference (every character must come back), ended in every way
+    alnum = "abcdefghijklmnopqrstuvwxyzABCDEFGHIJKLMNOPQRSTUVWXYZ0123456789"
+    ns = (1023, 1024, 1025, 1100) if tier == "quick" else (255, 256, 257, 1023, 1024, 1025, 1100, 2050, 4097, 70000)
+    for n in ns:
+        run = (alnum * (n // len(alnum) + 1))[:n]
+        for term in (";", "<b>", " y", "=", "", "&amp;"):
+            out.append(("t&" + run + term + "z", "-"))
+        out.append(("<a href=\"?a=1&" + run + "\" c='&" + run + ";'>z", "-"))
+        out.append(("<a href=?a=1&" + run + ">z", "-"))
+        out.append(("t&" + run + ";z</s>", "RawData(Rcdata)"))
+        out.append(("t&#" + "0" * n + "65;z", "-"))
+        out.append(("t&#x" + "0" * n + "41z", "-"))
+    # long names, values, comments, doctypes, many attributes (duplicate detection), long temp buffers
+    for n in ((300, 1030) if tier == "quick" else (255, 256, 300, 1030, 66000)):
+        out.append(("<" + "a" * n + " " + "b" * n + "=" + "c" * n + " " + "b" * n + "=d>t</" + "A" * n + ">", "-"))
+        out.append(("<!--" + "-x" * n + "-->t<!DOCTYPE " + "h" * n + " PUBLIC '" + "p" * n + "' \"" + "s" * n + "\">", "-"))
+        out.append(("</" + "s" * n + ">z</s" + "S" * 0 + ">", "RawData(Rawtext)"))
+        out.append(("<!--<script>" + "y" * n + "</script>" + "-" * n + ">z</script>", "RawData(ScriptData)"))
+    m = 300 if tier == "quick" else 1100
+    out.append(("<a " + " ".join("k%d=%d" % (i % (m - 3), i) for i in range(m)) + ">", "-"))
+    return out
+
+
+SPECIAL_CPS = [0x85, 0xA0, 0xAD, 0x130, 0x131, 0x17F, 0x1E9E, 0x2000, 0x200B, 0x200E, 0x2028, 0x2029, 0x202E, 0x2060, 0x212A,
+               0x3000, 0xD7FF, 0xE000, 0xFDD0, 0xFDEF, 0xFEFF, 0xFFF9, 0xFFFD, 0xFFFE, 0xFFFF, 0x10000, 0x1FFFE, 0x1FFFF,
+               0xE0001, 0x10FFFD, 0x10FFFE, 0x10FFFF]
+
+
+def codepoints(tier):
+    """code points for the per-code-point sweep: a change that gives one more code point a meaning on one path only
+    (slow path / fast path, one state, one option) is invisible to an alphabet made of the literals in today's table"""
+    if tier == "thorough":
+        return [c for c in range(0x110000) if not 0xD800 <= c < 0xE000 and (c < 0x30000 or c % 257 == 0 or c >= 0x10FF00)] 
+    cps = set(range(0x0, 0x3100)) | set(range(0xFB00, 0x10000)) | set(range(0x3100, 0x110000, 251)) | set(SPECIAL_CPS)
+    return sorted(c for c in cps if not 0xD800 <= c < 0xE000)
+
+
 TOK_RE = re.compile(r"^(?P<kind>[A-Z]+)(?::(?P<body>.*))?@(?P<line>\d+)$")
 
 
